@@ -201,8 +201,8 @@ def run(rep, tier, seed):
         for gi in vlist[fi::nvf]:
             dl, dg = by[(gi, "LR")].dump, by[(gi, "GLR")].dump
             body.append("Eval vm_compute in let g := %s in [wf_grammar_b g; sound_b g (%s); complete_b g (%s); "
-                        "sound_rn_b g (%s); complete_rn_b g (%s)]." % (gl_grammar(dl), gl_table(dl), gl_table(dl),
-                                                                       gl_table(dg), gl_table(dg)))
+                        "sound_rn_b g (%s); complete_rn_b g (%s); rn_complete_b g (%s)]." % (
+                            gl_grammar(dl), gl_table(dl), gl_table(dl), gl_table(dg), gl_table(dg), gl_table(dg)))
             tags.append(gi)
         vjobs.append(("c07tab_%d" % fi, "\n".join(body) + "\n"))
         vtags.append(tags)
@@ -215,11 +215,11 @@ def run(rep, tier, seed):
             continue
         for gi, a in zip(tags, ans):
             n_tab += 1
-            if all(a) and len(a) == 5:
+            if all(a) and len(a) == 6:
                 n_tab_ok += 1
             else:
                 names = ["wf_grammar_b", "sound_b(LR table)", "complete_b(LR table)", "sound_rn_b(GLR table)",
-                         "complete_rn_b(GLR table)"]
+                         "complete_rn_b(GLR table)", "rn_complete_b(GLR table: right-nulled reductions present)"]
                 fnd.add("table-validator", "a hypothesis of theorem tables_agree is false on the real tables: %s" %
                         ", ".join(n for n, b in zip(names, a) if not b),
                         dict(grammar=by[(gi, "LR")].case.grammar, flags=by[(gi, "LR")].case.flags,
